@@ -125,7 +125,7 @@ Proof.
   - intros [= <- _] _ Hacc. exact Hacc.
   - unfold assumptions_only_input. cbn [forallb]. intros H Hb Hacc. apply andb_true_iff in Hb. destruct Hb as [Ha Hb].
     destruct (is_assumption a) eqn:Ea.
-    + destruct (forallb _ (predicates (an_formula a))); [|discriminate].
+    + destruct (is_nil (output_overlap _ a)); [|discriminate].
       apply (IH _ _ _ _ H Hb). intros b Hb'. apply in_app_iff in Hb'. destruct Hb' as [Hb'|[<-|[]]]; [apply Hacc, Hb'|].
       intros r Hr. cbn in Hr. rewrite rp_predicates in Hr.
       apply (proj1 (subsetb_spec pred_dec _ _) Ha) in Hr. apply (in_iset_extend pred_dec) in Hr.
